@@ -1023,6 +1023,7 @@ class Analyzer:
         fkeep = set(v.fsym for v in env.values() if isinstance(v, FpV) and v.fsym is not None)
         base.fb = {k: b for k, b in base.fb.items() if k in fkeep or (k[0] == "f" and k[1:].isdigit())}
         base.prod = {k: v for k, v in base.prod.items() if k in keep}
+        base.prodl = {k: v for k, v in base.prodl.items() if k in keep}
         base.env = env
         base.trace = base.trace + [("join", head, len(sts))]
         for s in sts[1:]:
@@ -1335,6 +1336,7 @@ class Analyzer:
         t = T("mul", k1, k2)
         s = self.pmint(st, t, lo, hi, (ca, cb))
         st.prod[s] = (k1, k2)
+        st.prodl[s] = (ca, cb)
         return s, sa * sb
 
     def product(self, st, a, b, w):
@@ -1593,11 +1595,22 @@ class Analyzer:
             if c < 0:
                 q = q.neg()
             return q, r
+        # exact divisions:  (c*L) / L == c   and   (A*B) / B == A   (divisor non-zero on this path)
+        if bl.t and not bl.cn and bl.d == 1 and al.d == 1:
+            s0 = min(bl.t, key=str)
+            if s0 in al.t and al.t[s0] % bl.t[s0] == 0:
+                c = al.t[s0] // bl.t[s0]
+                if al.key() == bl.scale(c).key():
+                    return Lin.const(c), Lin.const(0)
+        sg = al.single()
+        if sg is not None and al.cn == 0 and al.d == 1 and abs(sg[1]) == 1:
+            pr = st.prodl.get(sg[0])
+            if pr is not None:
+                sb, cb = self.canon(bl)
+                for this, other in ((pr[0], pr[1]), (pr[1], pr[0])):
+                    if this.key() == cb.key():
+                        return other.scale(sg[1] * sb), Lin.const(0)
         # variable divisor: mint quotient symbol
-        cands = []
-        for x in (alo, ahi):
-            for y in (blo, bhi):
-                cands.append(int(Fraction(x, y)) if True else 0)
         # trunc toward zero of extremes
         def tdiv(x, y):
             q = abs(x) // abs(y)
@@ -1621,6 +1634,8 @@ class Analyzer:
     def trunc_rem(self, st, al, alo, ahi, m):
         """remainder of truncating division of the (sign-definite) form al by constant m>0.
         Canonical symbol: the constant part of al is reduced modulo m when that keeps the sign."""
+        if al.d == 1 and al.cn % m == 0 and all(c_ % m == 0 for c_ in al.t.values()):
+            return Lin.const(0), 0, 0
         if alo >= 0:
             if ahi < m:
                 return al, alo, ahi
